@@ -641,8 +641,10 @@ impl Rewriter {
       mir::Type::Int32 | mir::Type::Int31 => false,
       mir::Type::Id(type_id) => {
         let Some(type_def) = self.specialized_type_definitions.get(type_id) else {
-          // Recursive type currently being processed - must be heap-allocated (pointer).
-          return self.specialized_type_definition_names.contains(type_id);
+          // A type that is still being processed (a recursive reference) or unknown: its layout is not
+          // known yet. It may be an enum with data-free variants, e.g. `class Nat(Z, S(Nat))`, whose
+          // values are not always pointers, so the payload must stay boxed.
+          return false;
         };
         match &type_def.mappings {
           // Structs are always pointers.
